@@ -113,6 +113,24 @@ pub fn record_api(out: &mut Out, seed: u64) {
         out.ev(json!({"ev": "GetType", "fam": "v5", "packet": V5::to_json(&p), "typ": format!("{:?}", p.get_type())}));
         out.ev(json!({"ev": "DisplayIsDebug", "display": format!("{}", p.get_type()), "debug": format!("{:?}", p.get_type())}));
     }
+    // Header::new keeps its five arguments where they were given
+    for (i, (dup, q, retain, rl)) in [(false, 0u8, false, 0u32), (true, 1, false, 127), (false, 2, true, 16384), (true, 0, true, 268435455)]
+        .into_iter()
+        .enumerate()
+    {
+        let qos = mqtt_proto::QoS::from_u8(q).unwrap();
+        let h3 = v3::Header::new(v3::PacketType::Publish, dup, qos, retain, rl);
+        let h5 = v5::Header::new(v5::PacketType::Publish, dup, qos, retain, rl);
+        for (fam, typ, d, qq, r, l) in [("v3", format!("{:?}", h3.typ), h3.dup, h3.qos as u8, h3.retain, h3.remaining_len),
+                                        ("v5", format!("{:?}", h5.typ), h5.dup, h5.qos as u8, h5.retain, h5.remaining_len)] {
+            out.ev(json!({"ev": "HeaderNew", "fam": fam, "in": ["Publish", dup, q, retain, [rl >> 16, rl & 0xFFFF]],
+                          "out": [typ, d, qq, r, [l >> 16, l & 0xFFFF]]}));
+        }
+        let _ = i;
+    }
+    let ups = vec![v5::UserProperty { name: std::sync::Arc::new("k".into()), value: std::sync::Arc::new("v".into()) }];
+    let u: v5::UnsubscribeProperties = ups.clone().into();
+    out.ev(json!({"ev": "HeaderNew", "fam": "v5", "in": [ups.len()], "out": [u.user_properties.len()]}));
     for id in crate::tokens::ALL_PROP_IDS {
         if let Ok(pid) = v5::PropertyId::from_u8(id) {
             out.ev(json!({"ev": "DisplayIsDebug", "display": format!("{pid}"), "debug": format!("{pid:?}")}));
